@@ -4,6 +4,7 @@ import random
 
 REL = "http://schemas.openxmlformats.org/officeDocument/2006/relationships/"
 PKG_REL_DOC = REL + "officeDocument"
+PICTURE_URI = "http://schemas.openxmlformats.org/drawingml/2006/picture"
 
 HOSTILE = ["<", ">", "&", '"', "'", ";", "#", "&lt;", "&#60;", "&amp;", "]]>", "<b>", "\"><script>", " ", "  ", "\t", "\n",
            " ", " ", "é", "ß", "中", "\U0001f600", "́", "a", "b", "c", "x", "Z", "0", "1", "-", "_", ".", "/", "\\", "=", ":", "(", ")", "[", "]", "|", "!", "^", "\r", "%", "+", "~"]
@@ -421,6 +422,19 @@ class DocGen:
         pic = el("a:graphic", [], [el("a:graphicData", [], [el("pic:pic", [], nvpr() + [el("pic:blipFill", [], [b])]) for b in blips])])
         kind = rng.choice(["wp:inline", "wp:anchor"])
         children = ([el("wp:docPr", docpr)] if (docpr or rng.random() < 0.5) else []) + [pic]
+        pu = self.pf.get("p_graphic_uri", 0)
+        if pu:
+            # opt-in (no draw without the key): the picture as Word writes it in full - a:graphicData names the kind of graphic
+            # it holds in its uri ATTRIBUTE (a namespace URI as an attribute value), wp:extent / pic:spPr / a:stretch around it
+            if rng.random() < pu:
+                pic[2][0][1].append(["uri", PICTURE_URI])
+                self.hit("graphicdata-uri")
+            if rng.random() < pu:
+                children.insert(0, el("wp:extent", [("cx", "9525"), ("cy", "9525")]))
+                for pp in pic[2][0][2]:
+                    pp[2][-1][2].append(el("a:stretch", [], [el("a:fillRect")]))
+                    pp[2].append(el("pic:spPr"))
+                self.hit("picture-full")
         return el("w:drawing", [], [el(kind, [], children)])
 
     def textbox(self, depth):
